@@ -32,7 +32,7 @@ ASSUMPTIONS = [
 
 FEATURES = ['sibling_prefix', 'outside_tree', 'link_in_out_file', 'link_in_out_dir', 'link_in_in',
             'link_out_in_dir', 'chain', 'dangling', 'ext_only_link', 'dir_beside_tex', 'latex_ext',
-            'nested_include', 'link_to_base', 'deep_base', 'abs_links']
+            'nested_include', 'link_to_base', 'deep_base', 'abs_links', 'dir_tex_link', 'base_dot_tex']
 PERSISTENT_FEATURES = ['loop', 'unreadable_file', 'unsearchable_dir', 'non_utf8', 'long_name', 'long_chain']
 
 
@@ -153,6 +153,17 @@ def gen_layout(rng, batch):
         b.d(base + '/x')
         b.f(base + '/x.tex')
         b.f(base + '/x/y.tex')
+    if 'dir_tex_link' in feats:
+        # a directory beside a link of the same name plus extension, pointing outside
+        b.d(base + '/chap')
+        b.f(base + '/chap/in.tex')
+        b.l(base + '/chap' + rng.choice(['.tex', '.latex']), tgt(base, rng.choice(outs)))
+        if rng.random() < 0.5:
+            b.l(base + '/sub.tex', tgt(base, rng.choice(outs)))
+    if 'base_dot_tex' in feats:
+        # files named like the input directory itself plus extension, next to it
+        for ext in rng.sample(['.tex', '.latex'], rng.randint(1, 2)):
+            outs.append(b.f(base + ext) and base + ext)
     if 'latex_ext' in feats:
         b.f(base + '/c.latex')
         b.f(base + '/both.tex')
@@ -255,6 +266,10 @@ def gen_name(rng, fs, res, basenode, layout):
                 break
             cur = node
         name = '/'.join(parts)
+    if rng.random() < 0.06:
+        name = rng.choice(['', '.', './', 'sub/..', 'sub', 'sub/', 'chap', 'chap/', './chap', 'chap/../chap', 'x',
+                           'sub/../.', '..', '../' + layout['base'].rsplit('/', 1)[1]])
+        return name
     # mutations
     x = rng.random()
     if x < 0.45:
@@ -289,13 +304,29 @@ def generate(rng, tier, run):
     basenode = res.resolve(layout['base'])
     n_reads = rng.randint(8, 20) if tier == 'quick' else rng.randint(10, 40)
     ops = []
-    ops.append(['set_dir', rng.choice(layout['dirspecs']), rng.random() < 0.9])
+    ops.append(['set_dir', rng.choice(layout['dirspecs']), rng.random() < 0.9, 'new'])
     nmut = 0
+    dirs_for_cwd = sorted(set([layout['cwd'], W, layout['base'], layout['base'] + '/sub', '/sim']))
     for _ in range(n_reads):
         z = rng.random()
-        if z < 0.05:
-            ops.append(['set_dir', rng.choice(layout['dirspecs']), rng.random() < 0.85])
-        elif z < 0.12:
+        if z < 0.07:
+            ops.append(['set_dir', rng.choice(layout['dirspecs']), rng.random() < 0.8,
+                        rng.choice(['new', 'reuse', 'reuse', 'assign'])])
+        elif z < 0.09:
+            d = rng.choice(dirs_for_cwd)
+            ops.append(['chdir', d])
+            try:
+                fs.set_cwd(d)
+            except (OSError, ValueError):
+                pass
+        elif z < 0.105 and 'link_to_base' in layout['features']:
+            # the link through which the directory may have been configured now points elsewhere
+            parent = layout['base'].rsplit('/', 1)[0]
+            op = ['mutate', 'symlink', rng.choice([parent + '/lbase', '/sim/lb']),
+                  rng.choice([parent + '/out', layout['base'] + '/sub', layout['base'], W])]
+            _apply_mutation(fs, op, {})
+            ops.append(op)
+        elif z < 0.15:
             # the file system changes between reads
             kind = rng.choice(['retarget', 'remove', 'create_link', 'create_file', 'rename'])
             nodes = [p for p, n in fs.all_nodes() if n.kind != 'd' and p.startswith(layout['base'])]
@@ -418,13 +449,30 @@ def execute(program):
             kind = op[0]
             if kind == 'set_dir':
                 dirspec, strict = op[1], op[2]
-                l2t = RecordingL2T()
-                if strict and opi % 2:
-                    l2t.set_tex_input_directory(dirspec)          # strict_input defaults to True
+                mode = op[3] if len(op) > 3 else 'new'
+                if mode == 'new' or l2t is None:
+                    l2t = RecordingL2T()
+                    mode = 'new'
+                if mode == 'assign':
+                    # the documented public attributes, assigned directly
+                    l2t.tex_input_directory = dirspec
+                    l2t.strict_input = strict
                 else:
-                    l2t.set_tex_input_directory(dirspec, strict_input=strict)
-                stats.inc('op:set_dir')
-                trace.append(['set_dir', dirspec, strict])
+                    with mount:
+                        if strict and opi % 2:
+                            l2t.set_tex_input_directory(dirspec)          # strict_input defaults to True
+                        else:
+                            l2t.set_tex_input_directory(dirspec, strict_input=strict)
+                stats.inc('op:set_dir-' + mode)
+                trace.append(['set_dir', dirspec, strict, mode])
+                continue
+            if kind == 'chdir':
+                try:
+                    fs.set_cwd(op[1])
+                    stats.inc('op:chdir')
+                except (OSError, ValueError):
+                    pass
+                trace.append(['chdir', op[1]])
                 continue
             if kind == 'mutate':
                 _apply_mutation(fs, op, markers)
